@@ -29,6 +29,10 @@ struct Script {
     per_shard: bool,
     pool_n: usize,
     use_delay_ms: u64,
+    use_reject: u64,
+    slow_use_node: i64,
+    slow_use_ms: u64,
+    conn_timeout_ms: u64,
     steps: Vec<Value>,
 }
 
@@ -108,6 +112,10 @@ fn parse_script(v: &Value) -> Result<Script, String> {
         },
         pool_n: v["pool"]["n"].as_u64().filter(|n| *n > 0).ok_or("pool n missing or 0")? as usize,
         use_delay_ms: v["use_delay_ms"].as_u64().unwrap_or(0),
+        use_reject: v["use_reject"].as_u64().unwrap_or(0),
+        slow_use_node: v["slow_use_node"].as_i64().unwrap_or(-1),
+        slow_use_ms: v["slow_use_ms"].as_u64().unwrap_or(0),
+        conn_timeout_ms: v["conn_timeout_ms"].as_u64().unwrap_or(0),
         steps,
     })
 }
@@ -167,8 +175,14 @@ fn use_name(text: &str) -> String {
     if name.len() >= 2 && name.starts_with('"') && name.ends_with('"') { name[1..name.len() - 1].to_string() } else { name.to_ascii_lowercase() }
 }
 
-fn make_handler(use_delay_ms: u64) -> crate::mock::Handler {
+/// `reject`: how many USE queries (counted from the first `use` step on) the cluster answers with an ERROR Invalid;
+/// `slow_node` / `slow_ms`: that node answers USE only after `slow_ms` (longer than the session's connection timeout).
+/// set when the script reaches its first use step (rejections / slowness apply from then on)
+static ARMED: std::sync::atomic::AtomicBool = std::sync::atomic::AtomicBool::new(false);
+
+fn make_handler(use_delay_ms: u64, reject: u64, slow_node: i64, slow_ms: u64) -> crate::mock::Handler {
     let int = type_bytes("int").expect("type int");
+    let rejected = std::sync::atomic::AtomicU64::new(0);
     Arc::new(move |req: &Request| -> Action {
         if req.opcode != 0x07 {
             return Action::Reply(Reply::Void);
@@ -177,7 +191,14 @@ fn make_handler(use_delay_ms: u64) -> crate::mock::Handler {
         if is_use(text) {
             // The mock remembers the keyspace for the connection when this SetKeyspace answer is written,
             // i.e. after the delay.
+            // pool-level USE frames only (the session is up before the first use step): reject the first `reject` of them
+            if reject > 0 && ARMED.load(std::sync::atomic::Ordering::SeqCst) && rejected.fetch_add(1, std::sync::atomic::Ordering::SeqCst) < reject {
+                return Action::Reply(Reply::Error { code: 0x2200, message: "scripted: keyspace not known yet".into(), extra: vec![] });
+            }
             let reply = Action::Reply(Reply::SetKeyspace(use_name(text)));
+            if slow_node >= 0 && req.node as i64 == slow_node && ARMED.load(std::sync::atomic::Ordering::SeqCst) {
+                return Action::DelayMs(slow_ms, Box::new(reply));
+            }
             return if use_delay_ms == 0 { reply } else { Action::DelayMs(use_delay_ms, Box::new(reply)) };
         }
         if let Some(uid) = text.strip_prefix(SELECT_PREFIX).and_then(|r| r.trim().parse::<i32>().ok()) {
@@ -329,7 +350,7 @@ async fn run_script(sc: &Script) -> Value {
     let t0 = Instant::now();
     let mock = loop {
         crate::mock::REFUSE_NODE.store(-1, std::sync::atomic::Ordering::SeqCst);
-        match MockCluster::try_start(mock_config(sc), make_handler(sc.use_delay_ms)).await {
+        match MockCluster::try_start(mock_config(sc), make_handler(sc.use_delay_ms, sc.use_reject, sc.slow_use_node, sc.slow_use_ms)).await {
             Ok(m) => break m,
             Err(_) if t0.elapsed() < Duration::from_secs(3) => tokio::time::sleep(Duration::from_millis(50)).await,
             Err(e) => return empty_output(&sc.id, format!("mock start: {e}")),
@@ -367,7 +388,12 @@ async fn run_with_mock(sc: &Script, mock: &MockCluster) -> Value {
     let verbose = std::env::var("C20_VERBOSE").is_ok();
     let profile = ExecutionProfile::builder().request_timeout(Some(Duration::from_secs(3))).speculative_execution_policy(None).build();
     let n = NonZeroUsize::new(sc.pool_n).expect("pool n > 0");
-    let session = match SessionBuilder::new()
+    ARMED.store(false, std::sync::atomic::Ordering::SeqCst);
+    let mut sb = SessionBuilder::new();
+    if sc.conn_timeout_ms > 0 {
+        sb = sb.connection_timeout(Duration::from_millis(sc.conn_timeout_ms));
+    }
+    let session = match sb
         .known_node(mock.contact_point(0))
         .pool_size(if sc.per_shard { PoolSize::PerShard(n) } else { PoolSize::PerHost(n) })
         .default_execution_profile_handle(profile.into_handle())
@@ -409,6 +435,7 @@ async fn run_with_mock(sc: &Script, mock: &MockCluster) -> Value {
         };
         match step["op"].as_str().unwrap_or("") {
             "use" => {
+                ARMED.store(true, std::sync::atomic::Ordering::SeqCst);
                 let ks = step["ks"].as_str().unwrap_or("");
                 let j = next_use;
                 next_use += 1;
